@@ -1,1 +1,629 @@
-//! refpdf::encodings — not written yet.
+//! Single-byte Latin text encodings of ISO 32000-1 Annex D, transcribed from the standard:
+//! Table D.2 ("Latin character set and encodings": glyph name -> octal code in
+//! StandardEncoding / MacRomanEncoding / WinAnsiEncoding / PDFDocEncoding) plus the Adobe
+//! Glyph List (AGLFN) Unicode value of each of the 229 glyph names.
+//!
+//! Nothing here is derived from /repo. Validation (unit tests below, run at setup):
+//!  * WinAnsi column  vs Python `codecs` cp1252      — every cell both define;
+//!  * MacRoman column vs Python `codecs` mac_roman   — every cell both define;
+//!  * PDFDoc column   vs `refpdf::textstr::pdfdoc_to_unicode` (an independent
+//!    code->Unicode transcription of Table D.3);
+//!  * Standard column vs a second, code-ordered transcription of the PostScript
+//!    StandardEncoding vector (PLRM Appendix E) — no third-party table is installed.
+//!
+//! Cell classes. `Cell::Def(c)`: the table assigns the code to a glyph whose Unicode value is
+//! `c`. `Cell::Undef`: the table assigns nothing to the code — a conforming implementation
+//! may do anything there, so checks must exclude these cells from decode comparison and count
+//! them (see `undefined_codes`).
+//!
+//! Deliberate points, all from the text of Annex D:
+//!  * WinAnsi 0xA0 and MacRoman 0xCA: footnote "The SPACE character shall also be encoded as
+//!    312 in MacRomanEncoding and as 240 in WinAnsiEncoding. This duplicate code shall signify
+//!    a nonbreaking space" -> Def(U+00A0); a decoder answering U+0020 (the glyph name is
+//!    `space`) is also conforming: see `decode_alternatives`.
+//!  * WinAnsi 0xAD: footnote "The HYPHEN character shall also be encoded as 255 in
+//!    WinAnsiEncoding. This duplicate code shall signify a soft hyphen" -> Def(U+00AD),
+//!    alternative U+002D.
+//!  * WinAnsi 0x7F, 0x81, 0x8D, 0x8F, 0x90, 0x9D: footnote "all unused codes greater than 40
+//!    map to the bullet character. However, only code 225 shall be specifically assigned to
+//!    the bullet character; other codes are subject to future reassignment" -> Undef (not
+//!    pinned: bullet today, reassignable), recorded in `WINANSI_UNUSED_BULLET`.
+//!  * MacRoman 0xDB is `currency` (U+00A4): "the euro character ... is not available in
+//!    MacRomanEncoding"; Apple's later Mac OS Roman (and Python's mac_roman) put U+20AC there.
+//!  * MacRomanEncoding lacks the 15 Mac OS Roman characters of §9.6.6.4 Table 115 (notequal
+//!    0xAD, infinity 0xB0, lessequal 0xB2, greaterequal 0xB3, partialdiff 0xB6, summation
+//!    0xB7, product 0xB8, pi 0xB9, integral 0xBA, Omega 0xBD, radical 0xC3, approxequal 0xC5,
+//!    Delta 0xC6, lozenge 0xD7, apple 0xF0) -> Undef.
+//!  * PDFDoc 0x7F, 0x9F, 0xAD are undefined; 0x00-0x17 are undefined except that the text
+//!    string definition lets HT/LF/CR through (kept identical to `refpdf::textstr`).
+//!  * Codes 0x00-0x1F are outside all three font encodings -> Undef.
+
+#[derive(Clone, Copy, PartialEq, Eq, Debug, Hash)]
+pub enum Enc {
+    Standard,
+    MacRoman,
+    WinAnsi,
+    PdfDoc,
+}
+
+pub const ALL: [Enc; 4] = [Enc::Standard, Enc::MacRoman, Enc::WinAnsi, Enc::PdfDoc];
+
+impl Enc {
+    pub fn name(self) -> &'static str {
+        match self {
+            Enc::Standard => "StandardEncoding",
+            Enc::MacRoman => "MacRomanEncoding",
+            Enc::WinAnsi => "WinAnsiEncoding",
+            Enc::PdfDoc => "PDFDocEncoding",
+        }
+    }
+    fn col(self) -> usize {
+        match self {
+            Enc::Standard => 0,
+            Enc::MacRoman => 1,
+            Enc::WinAnsi => 2,
+            Enc::PdfDoc => 3,
+        }
+    }
+}
+
+#[derive(Clone, Copy, PartialEq, Eq, Debug, Hash)]
+pub enum Cell {
+    /// the table assigns this code; Unicode value of the glyph (AGLFN)
+    Def(char),
+    /// the table assigns nothing to this code
+    Undef,
+}
+
+/// no code in this encoding
+const N: u16 = 0xFFFF;
+
+/// Table D.2, one row per glyph name: (name, AGLFN Unicode, [STD, MAC, WIN, PDF] octal codes).
+/// Codes are written in octal exactly as printed in the standard.
+#[rustfmt::skip]
+pub const LATIN: &[(&str, u32, [u16; 4])] = &[
+    ("A", 0x0041, [0o101, 0o101, 0o101, 0o101]),
+    ("AE", 0x00C6, [0o341, 0o256, 0o306, 0o306]),
+    ("Aacute", 0x00C1, [N, 0o347, 0o301, 0o301]),
+    ("Acircumflex", 0x00C2, [N, 0o345, 0o302, 0o302]),
+    ("Adieresis", 0x00C4, [N, 0o200, 0o304, 0o304]),
+    ("Agrave", 0x00C0, [N, 0o313, 0o300, 0o300]),
+    ("Aring", 0x00C5, [N, 0o201, 0o305, 0o305]),
+    ("Atilde", 0x00C3, [N, 0o314, 0o303, 0o303]),
+    ("B", 0x0042, [0o102, 0o102, 0o102, 0o102]),
+    ("C", 0x0043, [0o103, 0o103, 0o103, 0o103]),
+    ("Ccedilla", 0x00C7, [N, 0o202, 0o307, 0o307]),
+    ("D", 0x0044, [0o104, 0o104, 0o104, 0o104]),
+    ("E", 0x0045, [0o105, 0o105, 0o105, 0o105]),
+    ("Eacute", 0x00C9, [N, 0o203, 0o311, 0o311]),
+    ("Ecircumflex", 0x00CA, [N, 0o346, 0o312, 0o312]),
+    ("Edieresis", 0x00CB, [N, 0o350, 0o313, 0o313]),
+    ("Egrave", 0x00C8, [N, 0o351, 0o310, 0o310]),
+    ("Eth", 0x00D0, [N, N, 0o320, 0o320]),
+    ("Euro", 0x20AC, [N, N, 0o200, 0o240]),
+    ("F", 0x0046, [0o106, 0o106, 0o106, 0o106]),
+    ("G", 0x0047, [0o107, 0o107, 0o107, 0o107]),
+    ("H", 0x0048, [0o110, 0o110, 0o110, 0o110]),
+    ("I", 0x0049, [0o111, 0o111, 0o111, 0o111]),
+    ("Iacute", 0x00CD, [N, 0o352, 0o315, 0o315]),
+    ("Icircumflex", 0x00CE, [N, 0o353, 0o316, 0o316]),
+    ("Idieresis", 0x00CF, [N, 0o354, 0o317, 0o317]),
+    ("Igrave", 0x00CC, [N, 0o355, 0o314, 0o314]),
+    ("J", 0x004A, [0o112, 0o112, 0o112, 0o112]),
+    ("K", 0x004B, [0o113, 0o113, 0o113, 0o113]),
+    ("L", 0x004C, [0o114, 0o114, 0o114, 0o114]),
+    ("Lslash", 0x0141, [0o350, N, N, 0o225]),
+    ("M", 0x004D, [0o115, 0o115, 0o115, 0o115]),
+    ("N", 0x004E, [0o116, 0o116, 0o116, 0o116]),
+    ("Ntilde", 0x00D1, [N, 0o204, 0o321, 0o321]),
+    ("O", 0x004F, [0o117, 0o117, 0o117, 0o117]),
+    ("OE", 0x0152, [0o352, 0o316, 0o214, 0o226]),
+    ("Oacute", 0x00D3, [N, 0o356, 0o323, 0o323]),
+    ("Ocircumflex", 0x00D4, [N, 0o357, 0o324, 0o324]),
+    ("Odieresis", 0x00D6, [N, 0o205, 0o326, 0o326]),
+    ("Ograve", 0x00D2, [N, 0o361, 0o322, 0o322]),
+    ("Oslash", 0x00D8, [0o351, 0o257, 0o330, 0o330]),
+    ("Otilde", 0x00D5, [N, 0o315, 0o325, 0o325]),
+    ("P", 0x0050, [0o120, 0o120, 0o120, 0o120]),
+    ("Q", 0x0051, [0o121, 0o121, 0o121, 0o121]),
+    ("R", 0x0052, [0o122, 0o122, 0o122, 0o122]),
+    ("S", 0x0053, [0o123, 0o123, 0o123, 0o123]),
+    ("Scaron", 0x0160, [N, N, 0o212, 0o227]),
+    ("T", 0x0054, [0o124, 0o124, 0o124, 0o124]),
+    ("Thorn", 0x00DE, [N, N, 0o336, 0o336]),
+    ("U", 0x0055, [0o125, 0o125, 0o125, 0o125]),
+    ("Uacute", 0x00DA, [N, 0o362, 0o332, 0o332]),
+    ("Ucircumflex", 0x00DB, [N, 0o363, 0o333, 0o333]),
+    ("Udieresis", 0x00DC, [N, 0o206, 0o334, 0o334]),
+    ("Ugrave", 0x00D9, [N, 0o364, 0o331, 0o331]),
+    ("V", 0x0056, [0o126, 0o126, 0o126, 0o126]),
+    ("W", 0x0057, [0o127, 0o127, 0o127, 0o127]),
+    ("X", 0x0058, [0o130, 0o130, 0o130, 0o130]),
+    ("Y", 0x0059, [0o131, 0o131, 0o131, 0o131]),
+    ("Yacute", 0x00DD, [N, N, 0o335, 0o335]),
+    ("Ydieresis", 0x0178, [N, 0o331, 0o237, 0o230]),
+    ("Z", 0x005A, [0o132, 0o132, 0o132, 0o132]),
+    ("Zcaron", 0x017D, [N, N, 0o216, 0o231]),
+    ("a", 0x0061, [0o141, 0o141, 0o141, 0o141]),
+    ("aacute", 0x00E1, [N, 0o207, 0o341, 0o341]),
+    ("acircumflex", 0x00E2, [N, 0o211, 0o342, 0o342]),
+    ("acute", 0x00B4, [0o302, 0o253, 0o264, 0o264]),
+    ("adieresis", 0x00E4, [N, 0o212, 0o344, 0o344]),
+    ("ae", 0x00E6, [0o361, 0o276, 0o346, 0o346]),
+    ("agrave", 0x00E0, [N, 0o210, 0o340, 0o340]),
+    ("ampersand", 0x0026, [0o046, 0o046, 0o046, 0o046]),
+    ("aring", 0x00E5, [N, 0o214, 0o345, 0o345]),
+    ("asciicircum", 0x005E, [0o136, 0o136, 0o136, 0o136]),
+    ("asciitilde", 0x007E, [0o176, 0o176, 0o176, 0o176]),
+    ("asterisk", 0x002A, [0o052, 0o052, 0o052, 0o052]),
+    ("at", 0x0040, [0o100, 0o100, 0o100, 0o100]),
+    ("atilde", 0x00E3, [N, 0o213, 0o343, 0o343]),
+    ("b", 0x0062, [0o142, 0o142, 0o142, 0o142]),
+    ("backslash", 0x005C, [0o134, 0o134, 0o134, 0o134]),
+    ("bar", 0x007C, [0o174, 0o174, 0o174, 0o174]),
+    ("braceleft", 0x007B, [0o173, 0o173, 0o173, 0o173]),
+    ("braceright", 0x007D, [0o175, 0o175, 0o175, 0o175]),
+    ("bracketleft", 0x005B, [0o133, 0o133, 0o133, 0o133]),
+    ("bracketright", 0x005D, [0o135, 0o135, 0o135, 0o135]),
+    ("breve", 0x02D8, [0o306, 0o371, N, 0o030]),
+    ("brokenbar", 0x00A6, [N, N, 0o246, 0o246]),
+    ("bullet", 0x2022, [0o267, 0o245, 0o225, 0o200]),
+    ("c", 0x0063, [0o143, 0o143, 0o143, 0o143]),
+    ("caron", 0x02C7, [0o317, 0o377, N, 0o031]),
+    ("ccedilla", 0x00E7, [N, 0o215, 0o347, 0o347]),
+    ("cedilla", 0x00B8, [0o313, 0o374, 0o270, 0o270]),
+    ("cent", 0x00A2, [0o242, 0o242, 0o242, 0o242]),
+    ("circumflex", 0x02C6, [0o303, 0o366, 0o210, 0o032]),
+    ("colon", 0x003A, [0o072, 0o072, 0o072, 0o072]),
+    ("comma", 0x002C, [0o054, 0o054, 0o054, 0o054]),
+    ("copyright", 0x00A9, [N, 0o251, 0o251, 0o251]),
+    ("currency", 0x00A4, [0o250, 0o333, 0o244, 0o244]),
+    ("d", 0x0064, [0o144, 0o144, 0o144, 0o144]),
+    ("dagger", 0x2020, [0o262, 0o240, 0o206, 0o201]),
+    ("daggerdbl", 0x2021, [0o263, 0o340, 0o207, 0o202]),
+    ("degree", 0x00B0, [N, 0o241, 0o260, 0o260]),
+    ("dieresis", 0x00A8, [0o310, 0o254, 0o250, 0o250]),
+    ("divide", 0x00F7, [N, 0o326, 0o367, 0o367]),
+    ("dollar", 0x0024, [0o044, 0o044, 0o044, 0o044]),
+    ("dotaccent", 0x02D9, [0o307, 0o372, N, 0o033]),
+    ("dotlessi", 0x0131, [0o365, 0o365, N, 0o232]),
+    ("e", 0x0065, [0o145, 0o145, 0o145, 0o145]),
+    ("eacute", 0x00E9, [N, 0o216, 0o351, 0o351]),
+    ("ecircumflex", 0x00EA, [N, 0o220, 0o352, 0o352]),
+    ("edieresis", 0x00EB, [N, 0o221, 0o353, 0o353]),
+    ("egrave", 0x00E8, [N, 0o217, 0o350, 0o350]),
+    ("eight", 0x0038, [0o070, 0o070, 0o070, 0o070]),
+    ("ellipsis", 0x2026, [0o274, 0o311, 0o205, 0o203]),
+    ("emdash", 0x2014, [0o320, 0o321, 0o227, 0o204]),
+    ("endash", 0x2013, [0o261, 0o320, 0o226, 0o205]),
+    ("equal", 0x003D, [0o075, 0o075, 0o075, 0o075]),
+    ("eth", 0x00F0, [N, N, 0o360, 0o360]),
+    ("exclam", 0x0021, [0o041, 0o041, 0o041, 0o041]),
+    ("exclamdown", 0x00A1, [0o241, 0o301, 0o241, 0o241]),
+    ("f", 0x0066, [0o146, 0o146, 0o146, 0o146]),
+    ("fi", 0xFB01, [0o256, 0o336, N, 0o223]),
+    ("five", 0x0035, [0o065, 0o065, 0o065, 0o065]),
+    ("fl", 0xFB02, [0o257, 0o337, N, 0o224]),
+    ("florin", 0x0192, [0o246, 0o304, 0o203, 0o206]),
+    ("four", 0x0034, [0o064, 0o064, 0o064, 0o064]),
+    ("fraction", 0x2044, [0o244, 0o332, N, 0o207]),
+    ("g", 0x0067, [0o147, 0o147, 0o147, 0o147]),
+    ("germandbls", 0x00DF, [0o373, 0o247, 0o337, 0o337]),
+    ("grave", 0x0060, [0o301, 0o140, 0o140, 0o140]),
+    ("greater", 0x003E, [0o076, 0o076, 0o076, 0o076]),
+    ("guillemotleft", 0x00AB, [0o253, 0o307, 0o253, 0o253]),
+    ("guillemotright", 0x00BB, [0o273, 0o310, 0o273, 0o273]),
+    ("guilsinglleft", 0x2039, [0o254, 0o334, 0o213, 0o210]),
+    ("guilsinglright", 0x203A, [0o255, 0o335, 0o233, 0o211]),
+    ("h", 0x0068, [0o150, 0o150, 0o150, 0o150]),
+    ("hungarumlaut", 0x02DD, [0o315, 0o375, N, 0o034]),
+    ("hyphen", 0x002D, [0o055, 0o055, 0o055, 0o055]),
+    ("i", 0x0069, [0o151, 0o151, 0o151, 0o151]),
+    ("iacute", 0x00ED, [N, 0o222, 0o355, 0o355]),
+    ("icircumflex", 0x00EE, [N, 0o224, 0o356, 0o356]),
+    ("idieresis", 0x00EF, [N, 0o225, 0o357, 0o357]),
+    ("igrave", 0x00EC, [N, 0o223, 0o354, 0o354]),
+    ("j", 0x006A, [0o152, 0o152, 0o152, 0o152]),
+    ("k", 0x006B, [0o153, 0o153, 0o153, 0o153]),
+    ("l", 0x006C, [0o154, 0o154, 0o154, 0o154]),
+    ("less", 0x003C, [0o074, 0o074, 0o074, 0o074]),
+    ("logicalnot", 0x00AC, [N, 0o302, 0o254, 0o254]),
+    ("lslash", 0x0142, [0o370, N, N, 0o233]),
+    ("m", 0x006D, [0o155, 0o155, 0o155, 0o155]),
+    ("macron", 0x00AF, [0o305, 0o370, 0o257, 0o257]),
+    ("minus", 0x2212, [N, N, N, 0o212]),
+    ("mu", 0x00B5, [N, 0o265, 0o265, 0o265]),
+    ("multiply", 0x00D7, [N, N, 0o327, 0o327]),
+    ("n", 0x006E, [0o156, 0o156, 0o156, 0o156]),
+    ("nine", 0x0039, [0o071, 0o071, 0o071, 0o071]),
+    ("ntilde", 0x00F1, [N, 0o226, 0o361, 0o361]),
+    ("numbersign", 0x0023, [0o043, 0o043, 0o043, 0o043]),
+    ("o", 0x006F, [0o157, 0o157, 0o157, 0o157]),
+    ("oacute", 0x00F3, [N, 0o227, 0o363, 0o363]),
+    ("ocircumflex", 0x00F4, [N, 0o231, 0o364, 0o364]),
+    ("odieresis", 0x00F6, [N, 0o232, 0o366, 0o366]),
+    ("oe", 0x0153, [0o372, 0o317, 0o234, 0o234]),
+    ("ogonek", 0x02DB, [0o316, 0o376, N, 0o035]),
+    ("ograve", 0x00F2, [N, 0o230, 0o362, 0o362]),
+    ("one", 0x0031, [0o061, 0o061, 0o061, 0o061]),
+    ("onehalf", 0x00BD, [N, N, 0o275, 0o275]),
+    ("onequarter", 0x00BC, [N, N, 0o274, 0o274]),
+    ("onesuperior", 0x00B9, [N, N, 0o271, 0o271]),
+    ("ordfeminine", 0x00AA, [0o343, 0o273, 0o252, 0o252]),
+    ("ordmasculine", 0x00BA, [0o353, 0o274, 0o272, 0o272]),
+    ("oslash", 0x00F8, [0o371, 0o277, 0o370, 0o370]),
+    ("otilde", 0x00F5, [N, 0o233, 0o365, 0o365]),
+    ("p", 0x0070, [0o160, 0o160, 0o160, 0o160]),
+    ("paragraph", 0x00B6, [0o266, 0o246, 0o266, 0o266]),
+    ("parenleft", 0x0028, [0o050, 0o050, 0o050, 0o050]),
+    ("parenright", 0x0029, [0o051, 0o051, 0o051, 0o051]),
+    ("percent", 0x0025, [0o045, 0o045, 0o045, 0o045]),
+    ("period", 0x002E, [0o056, 0o056, 0o056, 0o056]),
+    ("periodcentered", 0x00B7, [0o264, 0o341, 0o267, 0o267]),
+    ("perthousand", 0x2030, [0o275, 0o344, 0o211, 0o213]),
+    ("plus", 0x002B, [0o053, 0o053, 0o053, 0o053]),
+    ("plusminus", 0x00B1, [N, 0o261, 0o261, 0o261]),
+    ("q", 0x0071, [0o161, 0o161, 0o161, 0o161]),
+    ("question", 0x003F, [0o077, 0o077, 0o077, 0o077]),
+    ("questiondown", 0x00BF, [0o277, 0o300, 0o277, 0o277]),
+    ("quotedbl", 0x0022, [0o042, 0o042, 0o042, 0o042]),
+    ("quotedblbase", 0x201E, [0o271, 0o343, 0o204, 0o214]),
+    ("quotedblleft", 0x201C, [0o252, 0o322, 0o223, 0o215]),
+    ("quotedblright", 0x201D, [0o272, 0o323, 0o224, 0o216]),
+    ("quoteleft", 0x2018, [0o140, 0o324, 0o221, 0o217]),
+    ("quoteright", 0x2019, [0o047, 0o325, 0o222, 0o220]),
+    ("quotesinglbase", 0x201A, [0o270, 0o342, 0o202, 0o221]),
+    ("quotesingle", 0x0027, [0o251, 0o047, 0o047, 0o047]),
+    ("r", 0x0072, [0o162, 0o162, 0o162, 0o162]),
+    ("registered", 0x00AE, [N, 0o250, 0o256, 0o256]),
+    ("ring", 0x02DA, [0o312, 0o373, N, 0o036]),
+    ("s", 0x0073, [0o163, 0o163, 0o163, 0o163]),
+    ("scaron", 0x0161, [N, N, 0o232, 0o235]),
+    ("section", 0x00A7, [0o247, 0o244, 0o247, 0o247]),
+    ("semicolon", 0x003B, [0o073, 0o073, 0o073, 0o073]),
+    ("seven", 0x0037, [0o067, 0o067, 0o067, 0o067]),
+    ("six", 0x0036, [0o066, 0o066, 0o066, 0o066]),
+    ("slash", 0x002F, [0o057, 0o057, 0o057, 0o057]),
+    ("space", 0x0020, [0o040, 0o040, 0o040, 0o040]),
+    ("sterling", 0x00A3, [0o243, 0o243, 0o243, 0o243]),
+    ("t", 0x0074, [0o164, 0o164, 0o164, 0o164]),
+    ("thorn", 0x00FE, [N, N, 0o376, 0o376]),
+    ("three", 0x0033, [0o063, 0o063, 0o063, 0o063]),
+    ("threequarters", 0x00BE, [N, N, 0o276, 0o276]),
+    ("threesuperior", 0x00B3, [N, N, 0o263, 0o263]),
+    ("tilde", 0x02DC, [0o304, 0o367, 0o230, 0o037]),
+    ("trademark", 0x2122, [N, 0o252, 0o231, 0o222]),
+    ("two", 0x0032, [0o062, 0o062, 0o062, 0o062]),
+    ("twosuperior", 0x00B2, [N, N, 0o262, 0o262]),
+    ("u", 0x0075, [0o165, 0o165, 0o165, 0o165]),
+    ("uacute", 0x00FA, [N, 0o234, 0o372, 0o372]),
+    ("ucircumflex", 0x00FB, [N, 0o236, 0o373, 0o373]),
+    ("udieresis", 0x00FC, [N, 0o237, 0o374, 0o374]),
+    ("ugrave", 0x00F9, [N, 0o235, 0o371, 0o371]),
+    ("underscore", 0x005F, [0o137, 0o137, 0o137, 0o137]),
+    ("v", 0x0076, [0o166, 0o166, 0o166, 0o166]),
+    ("w", 0x0077, [0o167, 0o167, 0o167, 0o167]),
+    ("x", 0x0078, [0o170, 0o170, 0o170, 0o170]),
+    ("y", 0x0079, [0o171, 0o171, 0o171, 0o171]),
+    ("yacute", 0x00FD, [N, N, 0o375, 0o375]),
+    ("ydieresis", 0x00FF, [N, 0o330, 0o377, 0o377]),
+    ("yen", 0x00A5, [0o245, 0o264, 0o245, 0o245]),
+    ("z", 0x007A, [0o172, 0o172, 0o172, 0o172]),
+    ("zcaron", 0x017E, [N, N, 0o236, 0o236]),
+    ("zero", 0x0030, [0o060, 0o060, 0o060, 0o060]),
+];
+
+/// WinAnsi codes above 0o40 that the table leaves unused ("map to the bullet character",
+/// "subject to future reassignment").
+pub const WINANSI_UNUSED_BULLET: [u8; 6] = [0x7F, 0x81, 0x8D, 0x8F, 0x90, 0x9D];
+
+/// The 15 Mac OS Roman codes that MacRomanEncoding does not have (ISO 32000-1 Table 115).
+pub const MACROMAN_NOT_IN_PDF: [u8; 15] =
+    [0xAD, 0xB0, 0xB2, 0xB3, 0xB6, 0xB7, 0xB8, 0xB9, 0xBA, 0xBD, 0xC3, 0xC5, 0xC6, 0xD7, 0xF0];
+
+/// Apple's Mac OS Roman (the post-1998 character set, = Python `mac_roman`) at the 16 codes
+/// where it differs from / goes beyond MacRomanEncoding: the 15 codes of Table 115 and the
+/// euro at 0xDB. NOT part of Annex D — provided so that a check can recognise "this decoder
+/// implements Mac OS Roman" as a signature. Cross-checked against Python in the unit tests.
+pub const MACOS_ROMAN_BEYOND_ANNEX_D: [(u8, char); 16] = [
+    (0xAD, '\u{2260}'), (0xB0, '\u{221E}'), (0xB2, '\u{2264}'), (0xB3, '\u{2265}'), (0xB6, '\u{2202}'),
+    (0xB7, '\u{2211}'), (0xB8, '\u{220F}'), (0xB9, '\u{03C0}'), (0xBA, '\u{222B}'), (0xBD, '\u{03A9}'),
+    (0xC3, '\u{221A}'), (0xC5, '\u{2248}'), (0xC6, '\u{2206}'), (0xD7, '\u{25CA}'), (0xDB, '\u{20AC}'),
+    (0xF0, '\u{F8FF}'),
+];
+
+/// Mac OS Roman byte -> char (codes 0x00-0x7F identity), see `MACOS_ROMAN_BEYOND_ANNEX_D`.
+pub fn macos_roman(b: u8) -> char {
+    if let Some((_, c)) = MACOS_ROMAN_BEYOND_ANNEX_D.iter().find(|(x, _)| *x == b) {
+        return *c;
+    }
+    match decode(Enc::MacRoman, b) {
+        Cell::Def(c) => c,
+        Cell::Undef => b as char,
+    }
+}
+
+fn build(enc: Enc) -> [Cell; 256] {
+    let mut t = [Cell::Undef; 256];
+    let col = enc.col();
+    for (name, u, codes) in LATIN {
+        let code = codes[col];
+        if code == N {
+            continue;
+        }
+        assert!(code < 256, "{name}");
+        assert!(t[code as usize] == Cell::Undef, "{} code {:o} assigned twice ({name})", enc.name(), code);
+        t[code as usize] = Cell::Def(char::from_u32(*u).unwrap());
+    }
+    match enc {
+        // footnotes of Table D.2: duplicate codes for SPACE and HYPHEN
+        Enc::MacRoman => t[0o312] = Cell::Def('\u{00A0}'),
+        Enc::WinAnsi => {
+            t[0o240] = Cell::Def('\u{00A0}');
+            t[0o255] = Cell::Def('\u{00AD}');
+        }
+        // text strings: "The codes 0x09, 0x0A, 0x0D (HT, LF, CR) may appear" — kept as in textstr
+        Enc::PdfDoc => {
+            t[0x09] = Cell::Def('\t');
+            t[0x0A] = Cell::Def('\n');
+            t[0x0D] = Cell::Def('\r');
+        }
+        Enc::Standard => {}
+    }
+    t
+}
+
+/// The 256-cell decode table of an encoding.
+pub fn table(enc: Enc) -> &'static [Cell; 256] {
+    use std::sync::OnceLock;
+    static T: OnceLock<[[Cell; 256]; 4]> = OnceLock::new();
+    &T.get_or_init(|| [build(Enc::Standard), build(Enc::MacRoman), build(Enc::WinAnsi), build(Enc::PdfDoc)])[enc.col()]
+}
+
+pub fn decode(enc: Enc, b: u8) -> Cell {
+    table(enc)[b as usize]
+}
+
+/// Other Unicode values a conforming decoder may give for a *defined* cell: the duplicate
+/// SPACE / HYPHEN codes carry the glyph names `space` / `hyphen`.
+pub fn decode_alternatives(enc: Enc, b: u8) -> &'static [char] {
+    match (enc, b) {
+        (Enc::WinAnsi, 0xA0) | (Enc::MacRoman, 0xCA) => &[' '],
+        (Enc::WinAnsi, 0xAD) => &['-'],
+        _ => &[],
+    }
+}
+
+/// The code the table assigns to `c`, if `c` is in the encoding's repertoire. The tables are
+/// injective on defined cells (unit-tested), so the answer is unique.
+pub fn encode(enc: Enc, c: char) -> Option<u8> {
+    use std::collections::HashMap;
+    use std::sync::OnceLock;
+    static R: OnceLock<[HashMap<char, u8>; 4]> = OnceLock::new();
+    let maps = R.get_or_init(|| {
+        let mk = |e: Enc| {
+            let mut m = HashMap::new();
+            for (b, cell) in table(e).iter().enumerate() {
+                if let Cell::Def(c) = cell {
+                    let prev = m.insert(*c, b as u8);
+                    assert!(prev.is_none(), "{} not injective at {:02X}", e.name(), b);
+                }
+            }
+            m
+        };
+        [mk(Enc::Standard), mk(Enc::MacRoman), mk(Enc::WinAnsi), mk(Enc::PdfDoc)]
+    });
+    maps[enc.col()].get(&c).copied()
+}
+
+/// Codes the table leaves unassigned (excluded from decode comparison, counted by checks).
+pub fn undefined_codes(enc: Enc) -> Vec<u8> {
+    (0u16..256).map(|b| b as u8).filter(|&b| decode(enc, b) == Cell::Undef).collect()
+}
+
+/// The repertoire: every character with a code, in code order.
+pub fn repertoire(enc: Enc) -> Vec<(u8, char)> {
+    (0u16..256)
+        .filter_map(|b| match decode(enc, b as u8) {
+            Cell::Def(c) => Some((b as u8, c)),
+            Cell::Undef => None,
+        })
+        .collect()
+}
+
+/// Glyph name of a defined cell (for reports).
+pub fn glyph_name(enc: Enc, b: u8) -> Option<&'static str> {
+    let col = enc.col();
+    match (enc, b) {
+        (Enc::WinAnsi, 0xA0) | (Enc::MacRoman, 0xCA) => return Some("space (nonbreaking)"),
+        (Enc::WinAnsi, 0xAD) => return Some("hyphen (soft)"),
+        _ => {}
+    }
+    LATIN.iter().find(|(_, _, codes)| codes[col] == b as u16).map(|(n, _, _)| *n)
+}
+
+#[cfg(test)]
+mod tests {
+    use super::*;
+
+    #[test]
+    fn shape_of_the_tables() {
+        assert_eq!(LATIN.len(), 229);
+        // names unique, sorted as in the standard (ASCII order within case groups is not
+        // needed; uniqueness is)
+        let mut names: Vec<&str> = LATIN.iter().map(|r| r.0).collect();
+        names.sort();
+        names.dedup();
+        assert_eq!(names.len(), 229);
+        // Unicode values unique
+        let mut us: Vec<u32> = LATIN.iter().map(|r| r.1).collect();
+        us.sort();
+        us.dedup();
+        assert_eq!(us.len(), 229);
+        // every encoding: printable ASCII is where it must be
+        for enc in ALL {
+            for b in 0x20u8..0x7F {
+                let want = match (enc, b) {
+                    (Enc::Standard, 0x27) => '\u{2019}',
+                    (Enc::Standard, 0x60) => '\u{2018}',
+                    _ => b as char,
+                };
+                assert_eq!(decode(enc, b), Cell::Def(want), "{} {:02X}", enc.name(), b);
+            }
+        }
+        // known counts of assigned codes
+        assert_eq!(repertoire(Enc::Standard).len(), 149);
+        assert_eq!(repertoire(Enc::WinAnsi).len(), 95 + (256 - 0x80) - 5); // 0x20-0x7E + high half minus 5 unused
+        assert_eq!(repertoire(Enc::MacRoman).len(), 95 + 128 - 15);
+        assert_eq!(undefined_codes(Enc::WinAnsi).iter().filter(|&&b| b > 0x20).copied().collect::<Vec<_>>(), WINANSI_UNUSED_BULLET);
+        assert_eq!(undefined_codes(Enc::MacRoman).iter().filter(|&&b| b > 0x7F).copied().collect::<Vec<_>>(), MACROMAN_NOT_IN_PDF);
+        // encode is the inverse of decode on every defined cell
+        for enc in ALL {
+            for (b, c) in repertoire(enc) {
+                assert_eq!(encode(enc, c), Some(b));
+            }
+            assert_eq!(encode(enc, '\u{4E2D}'), None);
+        }
+        assert_eq!(encode(Enc::WinAnsi, '\u{20AC}'), Some(0x80));
+        assert_eq!(encode(Enc::PdfDoc, '\u{20AC}'), Some(0xA0));
+        assert_eq!(encode(Enc::MacRoman, '\u{20AC}'), None);
+        assert_eq!(encode(Enc::Standard, '\u{20AC}'), None);
+        assert_eq!(encode(Enc::Standard, '\''), Some(0xA9));
+        assert_eq!(encode(Enc::Standard, '`'), Some(0xC1));
+    }
+
+    /// second transcription, by code, of the PostScript StandardEncoding vector
+    #[test]
+    fn standard_matches_code_ordered_transcription() {
+        let mut want: Vec<(u8, &str)> = Vec::new();
+        let ascii_names = [
+            "space", "exclam", "quotedbl", "numbersign", "dollar", "percent", "ampersand", "quoteright", "parenleft",
+            "parenright", "asterisk", "plus", "comma", "hyphen", "period", "slash", "zero", "one", "two", "three",
+            "four", "five", "six", "seven", "eight", "nine", "colon", "semicolon", "less", "equal", "greater",
+            "question", "at", "A", "B", "C", "D", "E", "F", "G", "H", "I", "J", "K", "L", "M", "N", "O", "P", "Q", "R",
+            "S", "T", "U", "V", "W", "X", "Y", "Z", "bracketleft", "backslash", "bracketright", "asciicircum",
+            "underscore", "quoteleft", "a", "b", "c", "d", "e", "f", "g", "h", "i", "j", "k", "l", "m", "n", "o", "p",
+            "q", "r", "s", "t", "u", "v", "w", "x", "y", "z", "braceleft", "bar", "braceright", "asciitilde",
+        ];
+        for (i, n) in ascii_names.iter().enumerate() {
+            want.push((0x20 + i as u8, n));
+        }
+        let high: [(u8, &str); 54] = [
+            (0xA1, "exclamdown"), (0xA2, "cent"), (0xA3, "sterling"), (0xA4, "fraction"), (0xA5, "yen"),
+            (0xA6, "florin"), (0xA7, "section"), (0xA8, "currency"), (0xA9, "quotesingle"), (0xAA, "quotedblleft"),
+            (0xAB, "guillemotleft"), (0xAC, "guilsinglleft"), (0xAD, "guilsinglright"), (0xAE, "fi"), (0xAF, "fl"),
+            (0xB1, "endash"), (0xB2, "dagger"), (0xB3, "daggerdbl"), (0xB4, "periodcentered"), (0xB6, "paragraph"),
+            (0xB7, "bullet"), (0xB8, "quotesinglbase"), (0xB9, "quotedblbase"), (0xBA, "quotedblright"),
+            (0xBB, "guillemotright"), (0xBC, "ellipsis"), (0xBD, "perthousand"), (0xBF, "questiondown"),
+            (0xC1, "grave"), (0xC2, "acute"), (0xC3, "circumflex"), (0xC4, "tilde"), (0xC5, "macron"), (0xC6, "breve"),
+            (0xC7, "dotaccent"), (0xC8, "dieresis"), (0xCA, "ring"), (0xCB, "cedilla"), (0xCD, "hungarumlaut"),
+            (0xCE, "ogonek"), (0xCF, "caron"), (0xD0, "emdash"), (0xE1, "AE"), (0xE3, "ordfeminine"), (0xE8, "Lslash"),
+            (0xE9, "Oslash"), (0xEA, "OE"), (0xEB, "ordmasculine"), (0xF1, "ae"), (0xF5, "dotlessi"), (0xF8, "lslash"),
+            (0xF9, "oslash"), (0xFA, "oe"), (0xFB, "germandbls"),
+        ];
+        want.extend(high);
+        assert_eq!(want.len(), 149);
+        let mut seen = 0;
+        for b in 0u16..256 {
+            let b = b as u8;
+            let w = want.iter().find(|(c, _)| *c == b).map(|(_, n)| *n);
+            assert_eq!(glyph_name(Enc::Standard, b), w, "code {b:02X}");
+            if w.is_some() {
+                seen += 1;
+            }
+        }
+        assert_eq!(seen, 149);
+    }
+
+    #[test]
+    fn pdfdoc_matches_textstr_transcription() {
+        for b in 0u16..256 {
+            let b = b as u8;
+            let here = match decode(Enc::PdfDoc, b) {
+                Cell::Def(c) => Some(c),
+                Cell::Undef => None,
+            };
+            assert_eq!(here, crate::textstr::pdfdoc_to_unicode(b), "code {b:02X}");
+        }
+    }
+
+    /// Dump a Python codec's decode table: Some(char) per byte, None where the codec has no mapping.
+    fn python_table(codec: &str) -> Vec<Option<char>> {
+        let script = format!(
+            "import sys\nfor b in range(256):\n    try:\n        print(ord(bytes([b]).decode('{codec}')))\n    except UnicodeDecodeError:\n        print(-1)\n"
+        );
+        let out = std::process::Command::new("python3").arg("-c").arg(&script).output().expect("python3 must be installed (setup requirement)");
+        assert!(out.status.success(), "python3 failed: {}", String::from_utf8_lossy(&out.stderr));
+        let v: Vec<Option<char>> = String::from_utf8(out.stdout)
+            .unwrap()
+            .lines()
+            .map(|l| {
+                let n: i64 = l.trim().parse().unwrap();
+                if n < 0 { None } else { char::from_u32(n as u32) }
+            })
+            .collect();
+        assert_eq!(v.len(), 256);
+        v
+    }
+
+    #[test]
+    fn winansi_vs_python_cp1252() {
+        let py = python_table("cp1252");
+        let (mut shared, mut only_annex, mut only_py) = (0, Vec::new(), Vec::new());
+        for b in 0u16..256 {
+            let b = b as u8;
+            match (decode(Enc::WinAnsi, b), py[b as usize]) {
+                (Cell::Def(a), Some(p)) => {
+                    shared += 1;
+                    assert_eq!(a, p, "cp1252 disagrees at {b:02X}");
+                }
+                (Cell::Def(_), None) => only_annex.push(b),
+                (Cell::Undef, Some(_)) => only_py.push(b),
+                (Cell::Undef, None) => {}
+            }
+        }
+        // cp1252 leaves exactly the five codes 81 8D 8F 90 9D unmapped, as Annex D does; it
+        // additionally maps the C0 controls and DEL, which Annex D does not assign.
+        assert!(only_annex.is_empty(), "{only_annex:02X?}");
+        let mut want_only_py: Vec<u8> = (0u8..0x20).collect();
+        want_only_py.push(0x7F);
+        assert_eq!(only_py, want_only_py);
+        assert_eq!(shared, 218); // 95 printable ASCII + 123 of the high half
+        // the duplicate codes: cp1252 gives NBSP / SHY, the values the footnotes call for
+        assert_eq!(py[0xA0], Some('\u{00A0}'));
+        assert_eq!(py[0xAD], Some('\u{00AD}'));
+    }
+
+    #[test]
+    fn macroman_vs_python_mac_roman() {
+        let py = python_table("mac_roman");
+        let (mut shared, mut differ, mut only_py) = (0, Vec::new(), Vec::new());
+        for b in 0u16..256 {
+            let b = b as u8;
+            match (decode(Enc::MacRoman, b), py[b as usize]) {
+                (Cell::Def(a), Some(p)) => {
+                    shared += 1;
+                    if a != p {
+                        differ.push((b, a, p));
+                    }
+                }
+                (Cell::Def(_), None) => panic!("mac_roman has no {b:02X}"),
+                (Cell::Undef, Some(_)) => only_py.push(b),
+                (Cell::Undef, None) => {}
+            }
+        }
+        // the one deliberate difference: 0xDB is `currency` in Annex D, EURO SIGN in the
+        // post-1998 Mac OS Roman that Python implements
+        assert_eq!(differ, vec![(0xDB, '\u{00A4}', '\u{20AC}')]);
+        let mut want_only_py: Vec<u8> = (0u8..0x20).collect();
+        want_only_py.push(0x7F);
+        want_only_py.extend(MACROMAN_NOT_IN_PDF);
+        assert_eq!(only_py, want_only_py);
+        assert_eq!(shared, 208);
+        assert_eq!(py[0xCA], Some('\u{00A0}'));
+        // the signature table is exactly Python's mac_roman
+        for b in 0u16..256 {
+            assert_eq!(Some(macos_roman(b as u8)), py[b as usize], "macos_roman {b:02X}");
+        }
+    }
+}
